@@ -128,8 +128,8 @@ def workDir {α : Type} (cwd : List α) (artifacts : α) (runDir : P α) (actor 
 
 structure Flags where
   k        : Bool      -- -k / --keep-artifacts
-  clear    : Bool      -- --clear
-  upload   : Bool      -- --upload-url given (initArgs: implies --clear)
+  clear    : Option Bool   -- --clear / --clear=false given explicitly, or not at all
+  upload   : Bool      -- --upload-url given (initArgs: implies --clear unless --clear was given explicitly)
   skipPlot : Bool      -- --disable-plots
 deriving DecidableEq, Repr
 
@@ -153,7 +153,8 @@ structure Outcome where
   uploadedArtifacts : Bool   -- the artifacts were still there when the upload tool ran
 deriving DecidableEq, Repr
 
-def removeAll (f : Flags) : Bool := f.clear || f.upload
+/-- `cfg.removeAll` after `initArgs`: the value of `--clear` when the flag was given, otherwise whether an upload URL was -/
+def removeAll (f : Flags) : Bool := f.clear.getD f.upload
 
 /-- `run()` after `runConduct`, in execution order: assemble (fixes the Foul flag), plot, then the
 deferred functions last-in first-out: (5) remove artifacts / result.js / index.html, (4) upload,
